@@ -114,8 +114,10 @@ class Check:
                 return
         if any(v["signature"] == signature for v in self.violations):
             return
-        os.makedirs(os.path.join(ROOT, "replay"), exist_ok=True)
-        path = os.path.join(ROOT, "replay", f"{self.pid}_{len(self.violations)}.json")
+        # development runs against patched trees (VERIF_EVIDENCE_DIR set) keep their replay files next to their evidence
+        rdir = os.path.join(os.environ.get("VERIF_EVIDENCE_DIR") or ROOT, "replay")
+        os.makedirs(rdir, exist_ok=True)
+        path = os.path.join(rdir, f"{self.pid}_{len(self.violations)}.json")
         rec = {"property": self.pid, "signature": signature, "what": what, **_jsonable(replay)}
         with open(path, "w") as f:
             json.dump(rec, f, indent=1)
